@@ -302,6 +302,10 @@ func (m *RIB) StaticAdd(ni string, op *spb.AFTOperation, trusted bool) (Validity
 	switch t := p.(type) {
 	case *aftpb.Afts_Ipv4EntryKey, *aftpb.Afts_Ipv6EntryKey, *aftpb.Afts_LabelEntryKey:
 		gni, gid, _ := groupRef(ni, p)
+		if md := entryMetadata(p); len(md) > 8 {
+			// the schema (gribi-aft.yang: entry-metadata, binary, length 0..8) bounds it
+			return MustFail, "entry metadata longer than 8 bytes"
+		}
 		if m.RefCheck {
 			if gid == 0 {
 				return MustFail, "zero or missing next-hop-group"
@@ -856,4 +860,16 @@ func (m *RIB) BeliefApply(ni string, op *spb.AFTOperation) {
 			delete(m.Ent, k)
 		}
 	}
+}
+
+func entryMetadata(p proto.Message) []byte {
+	switch t := p.(type) {
+	case *aftpb.Afts_Ipv4EntryKey:
+		return t.GetIpv4Entry().GetEntryMetadata().GetValue()
+	case *aftpb.Afts_Ipv6EntryKey:
+		return t.GetIpv6Entry().GetEntryMetadata().GetValue()
+	case *aftpb.Afts_LabelEntryKey:
+		return t.GetLabelEntry().GetEntryMetadata().GetValue()
+	}
+	return nil
 }
